@@ -159,10 +159,12 @@ def finish(res: Result, tier: str, seed: int, level: str, t0: float, program, ex
         f"SUMMARY property={res.prop} tier={tier} obligations={n_ob} discharged={n_ok} "
         f"known={len(listed)} violated={len(unlisted)} functions={len(res.units)}"
     )
-    if floor_errors:
+    if floor_errors and not unlisted:
         for f in floor_errors:
             print(f"ANALYSIS-ERROR property={res.prop} vacuity floor not met — {f}")
         return 2
+    for f in floor_errors:
+        print(f"INFO: vacuity floor not met — {f}")
     if unlisted:
         replay = os.path.join(EVIDENCE_DIR, f"{res.prop}.violations.json")
         if write:
